@@ -382,6 +382,17 @@ Theorem parallel3d_axis_frommatrix : forall m (tr : R * R * R) (g : par3a) (a : 
 Proof. exact par3a_frommatrix_spec. Qed.
 Print Assumptions parallel3d_axis_frommatrix.
 
+(* ConeBeamGeometry.frommatrix (flat detector), incl. helical pitch, offset and shift functions *)
+Theorem conebeam_frommatrix : forall (rs rd pitch off : R) m (tr : R * R * R) (g : cone)
+    (a : R * R) (ang twopi : R) (ssh dsh : R * R * R) (p : dpar3),
+  is_rot3 m -> cone_frommatrix sqrt rs rd CFlat pitch off m tr = Some g ->
+  cone_src sqrt g a ang twopi ssh = add3 tr (mv3 m (cone_src sqrt (cone_default rs rd pitch off) a ang twopi ssh)) /\
+  cone_detpoint sqrt g a ang twopi dsh p =
+    add3 tr (mv3 m (cone_detpoint sqrt (cone_default rs rd pitch off) a ang twopi dsh p)) /\
+  c_axis g = mv3 m (0, 0, 1).
+Proof. exact cone_frommatrix_spec. Qed.
+Print Assumptions conebeam_frommatrix.
+
 (* =========== non-vacuity: the hypotheses above are met by objects the code builds =========== *)
 From Coq Require Import QArith.
 From Verif Require Import C19.Corr.
